@@ -96,7 +96,7 @@ theorem makeDb_ok {toTaxa : Name → List Label → List Taxon} {progs : List Pr
     (h : makeDb toTaxa progs = .ok db) :
     db.importations = completeImportations (directD progs) ∧
     exportations (pathsOf progs) (completeImportations (directD progs)) = .ok db.exportations ∧
-    db.labels = sortKeys (collect (labelOcc (labelled progs))) ∧
+    db.labels = sortKeys (collectNew (labelOcc (labelled progs))) ∧
     db.taxa = sortKeys (collect (taxonOcc (taxaed toTaxa progs))) ∧
     db.programs =
       progs.foldl (fun d p => set d p.path (recordOf toTaxa (internalOf progs) p)) [] := by
@@ -210,20 +210,131 @@ theorem foldl_set_props {β γ : Type} (key : γ → Name) (val : γ → β) (xs
         simp only [List.mem_singleton] at hb
         rw [hb]; intro e; exact hk (e ▸ ha)
 
+/-- the spans of all the entries named `k`, in order -/
+def spansNamed (ls : List Label) (k : Name) : List Span3 :=
+  (ls.filter fun l => decide (l.name = k)).flatMap (·.spans)
+
+theorem get?_foldl_bags (ls : List Label) (d : List (Name × List Span3)) (k : Name) :
+    get? (ls.foldl (fun d l => set d l.name ((get? d l.name).getD [] ++ l.spans)) d) k =
+      match get? d k with
+      | some v => some (v ++ spansNamed ls k)
+      | none => if k ∈ ls.map (·.name) then some (spansNamed ls k) else none := by
+  induction ls generalizing d with
+  | nil =>
+    simp only [List.foldl_nil, spansNamed, List.filter_nil, List.flatMap_nil, List.append_nil,
+      List.map_nil, List.not_mem_nil, if_false]
+    cases get? d k <;> rfl
+  | cons l t ih =>
+    simp only [List.foldl_cons]
+    rw [ih, get?_set]
+    by_cases h : k = l.name
+    · subst h
+      simp only [if_true, spansNamed, List.filter_cons, decide_true, List.flatMap_cons, List.map_cons,
+        List.mem_cons, true_or]
+      cases hg : get? d l.name with
+      | none => simp
+      | some v => simp
+    · have hn : ¬ l.name = k := fun e => h e.symm
+      simp only [h, if_false, spansNamed, List.filter_cons, hn, decide_false, Bool.false_eq_true,
+        List.map_cons, List.mem_cons, false_or]
+
+theorem get?_labelBags (ls : List Label) (k : Name) :
+    get? (labelBags ls) k = if k ∈ ls.map (·.name) then some (spansNamed ls k) else none := by
+  unfold labelBags
+  rw [get?_foldl_bags]
+  rfl
+
+theorem labelBags_keys (ls : List Label) :
+    (∀ k, k ∈ keys (labelBags ls) ↔ k ∈ ls.map (·.name)) ∧ (keys (labelBags ls)).Nodup := by
+  obtain ⟨-, h2, h3⟩ := foldl_set_props (fun l : Label => l.name) (fun l : Label => l.spans) ls []
+  -- `foldl_set_props` is about constant values; redo the two key facts for the accumulating step
+  clear h2 h3
+  have key : ∀ (ls : List Label) (d : List (Name × List Span3)),
+      (∀ k, k ∈ keys (ls.foldl (fun d l => set d l.name ((get? d l.name).getD [] ++ l.spans)) d) ↔
+        k ∈ keys d ∨ k ∈ ls.map (·.name)) ∧
+      ((keys d).Nodup →
+        (keys (ls.foldl (fun d l => set d l.name ((get? d l.name).getD [] ++ l.spans)) d)).Nodup) := by
+    intro ls
+    induction ls with
+    | nil => intro d; simp
+    | cons l t ih =>
+      intro d
+      simp only [List.foldl_cons]
+      obtain ⟨h1, h2⟩ := ih (set d l.name ((get? d l.name).getD [] ++ l.spans))
+      refine ⟨?_, ?_⟩
+      · intro k
+        rw [h1, keys_set]
+        by_cases hk : l.name ∈ keys d
+        · simp only [hk, if_true, List.map_cons, List.mem_cons]
+          constructor
+          · rintro (h | h)
+            · exact Or.inl h
+            · exact Or.inr (Or.inr h)
+          · rintro (h | h | h)
+            · exact Or.inl h
+            · rw [h]; exact Or.inl hk
+            · exact Or.inr h
+        · simp only [hk, if_false, List.mem_append, List.map_cons, List.mem_cons, List.not_mem_nil,
+            or_false]
+          constructor
+          · rintro ((h | h) | h)
+            · exact Or.inl h
+            · exact Or.inr (Or.inl h)
+            · exact Or.inr (Or.inr h)
+          · rintro (h | h | h)
+            · exact Or.inl (Or.inl h)
+            · exact Or.inl (Or.inr h)
+            · exact Or.inr h
+      · intro hn
+        apply h2
+        rw [keys_set]
+        split
+        · exact hn
+        · rename_i hk
+          rw [List.nodup_append]
+          refine ⟨hn, by simp, ?_⟩
+          intro a ha b hb
+          simp only [List.mem_singleton] at hb
+          rw [hb]; intro e; exact hk (e ▸ ha)
+  obtain ⟨k1, k2⟩ := key ls []
+  refine ⟨fun k => ?_, k2 (by simp [keys])⟩
+  have := k1 k
+  simpa [keys, labelBags] using this
+
+theorem keys_preparedLabels (ls : List Label) : keys (preparedLabels ls) = keys (labelBags ls) := by
+  simp [keys, preparedLabels, List.map_map, Function.comp_def]
+
+/-- **`prepared_labels`, at full strength** (no hypothesis on the names): the keys are the label names,
+each once, and the value at a name is the sorted distinct spans of ALL the entries of that name. -/
 theorem preparedLabels_props (ls : List Label) :
-    (∀ e ∈ preparedLabels ls, ∃ l ∈ ls, l.name = e.1 ∧ e.2 = preparedSpans l.spans) ∧
+    (∀ e ∈ preparedLabels ls, e.1 ∈ ls.map (·.name) ∧ e.2 = preparedSpans (spansNamed ls e.1)) ∧
     (∀ k, k ∈ keys (preparedLabels ls) ↔ k ∈ ls.map (·.name)) ∧
     (keys (preparedLabels ls)).Nodup := by
-  obtain ⟨h1, h2, h3⟩ := foldl_set_props (fun l : Label => l.name)
-    (fun l : Label => preparedSpans l.spans) ls []
-  refine ⟨?_, ?_, h3 (by simp [keys])⟩
+  obtain ⟨hk, hn⟩ := labelBags_keys ls
+  refine ⟨?_, ?_, ?_⟩
   · intro e he
-    rcases h1 e he with h | ⟨l, hl, hk, hv⟩
-    · cases h
-    · exact ⟨l, hl, hk, hv.symm⟩
-  · intro k
-    have := h2 k
-    simpa [keys, preparedLabels] using this
+    simp only [preparedLabels, List.mem_map] at he
+    obtain ⟨b, hb, rfl⟩ := he
+    have hg := get?_of_mem_nodup hn (show (b.1, b.2) ∈ labelBags ls from hb)
+    rw [get?_labelBags] at hg
+    split at hg
+    · rename_i hmem
+      simp only [Option.some.injEq] at hg
+      exact ⟨hmem, by rw [← hg]⟩
+    · cases hg
+  · intro k; rw [keys_preparedLabels]; exact hk k
+  · rw [keys_preparedLabels]; exact hn
+
+theorem get?_map_snd {β γ : Type} (d : List (Name × β)) (f : β → γ) (k : Name) :
+    get? (d.map fun e => (e.1, f e.2)) k = (get? d k).map f := by
+  induction d with
+  | nil => rfl
+  | cons e t ih =>
+    obtain ⟨k0, v0⟩ := e
+    simp only [List.map_cons, get?_cons]
+    by_cases h : k0 = k
+    · simp [h]
+    · simp [h, ih]
 
 theorem preparedTaxa_props (ts : List Taxon) :
     (∀ e ∈ preparedTaxa ts, ∃ t ∈ ts, t.name = e.1 ∧ e.2 = preparedSpans t.spans) ∧
@@ -240,17 +351,14 @@ theorem preparedTaxa_props (ts : List Taxon) :
     have := h2 k
     simpa [keys, preparedTaxa] using this
 
-/-- With distinct names, every label is stored under its name with its own sorted spans. -/
-theorem get?_preparedLabels {ls : List Label} (hn : (ls.map (·.name)).Nodup) {l : Label}
-    (hl : l ∈ ls) : get? (preparedLabels ls) l.name = some (preparedSpans l.spans) := by
-  have := foldl_set_nodup (fun l : Label => l.name) (fun l : Label => preparedSpans l.spans) ls []
-    (by simpa [keys] using hn)
+/-- Every label name is a key, with the sorted distinct spans of all the entries of that name — whether
+or not a name occurs several times in the parser's result. -/
+theorem get?_preparedLabels (ls : List Label) {l : Label} (hl : l ∈ ls) :
+    get? (preparedLabels ls) l.name = some (preparedSpans (spansNamed ls l.name)) := by
   unfold preparedLabels
-  rw [this]
-  apply get?_of_mem_nodup
-  · simpa [keys, List.map_map, Function.comp_def] using hn
-  · simp only [List.nil_append, List.mem_map]
-    exact ⟨l, hl, rfl⟩
+  rw [get?_map_snd, get?_labelBags]
+  have : l.name ∈ ls.map (·.name) := List.mem_map.mpr ⟨l, hl, rfl⟩
+  simp [this]
 
 theorem get?_preparedTaxa {ts : List Taxon} (hn : (ts.map (·.name)).Nodup) {t : Taxon}
     (ht : t ∈ ts) : get? (preparedTaxa ts) t.name = some (preparedSpans t.spans) := by
@@ -315,5 +423,106 @@ theorem index_inAt (occ : List (Name × Name)) (k p : Name) :
     have hp := mem_occOf.mpr h
     have hne : occOf occ k ≠ [] := fun e => by rw [e] at hp; cases hp
     exact ⟨occOf occ k, by simp [hne], hp⟩
+
+/-! ## The labels index after fix F47 -/
+
+theorem indexNew_get? (occ : List (Name × Name)) (k : Name) :
+    get? (sortKeys (collectNew occ)) k =
+      if occOf occ k = [] then none else some (dedupAdj (occOf occ k)) := by
+  rw [(sortKeys_props _ (nodup_keys_collectNew occ)).2.1, get?_collectNew]
+
+theorem indexNew_inAt (occ : List (Name × Name)) (k p : Name) :
+    InAt (sortKeys (collectNew occ)) k p ↔ (k, p) ∈ occ := by
+  unfold InAt
+  rw [indexNew_get?]
+  constructor
+  · rintro ⟨l, hl, hp⟩
+    split at hl
+    · cases hl
+    · simp only [Option.some.injEq] at hl
+      rw [← hl, mem_dedupAdj] at hp
+      exact mem_occOf.mp hp
+  · intro h
+    have hp := mem_occOf.mpr h
+    have hne : occOf occ k ≠ [] := fun e => by rw [e] at hp; cases hp
+    exact ⟨dedupAdj (occOf occ k), by simp [hne], (mem_dedupAdj _ _).mpr hp⟩
+
+theorem occOf_append (a b : List (Name × Name)) (k : Name) :
+    occOf (a ++ b) k = occOf a k ++ occOf b k := by
+  simp [occOf]
+
+theorem occOf_block (e : Name × List Label) (k : Name) :
+    ∀ x ∈ occOf (e.2.map fun l => (l.name, e.1)) k, x = e.1 := by
+  intro x hx
+  simp only [occOf, List.mem_map, List.mem_filter, decide_eq_true_eq] at hx
+  obtain ⟨o, ⟨⟨l, -, rfl⟩, -⟩, rfl⟩ := hx
+  rfl
+
+theorem getLast?_addNew (l : List Name) (a : Name) : (addNew l a).getLast? = some a := by
+  unfold addNew
+  split
+  · rename_i h; exact h
+  · simp
+
+/-- a block of equal values adds its value at most once -/
+theorem foldl_addNew_const (xs l : List Name) (a : Name) (h : ∀ x ∈ xs, x = a) :
+    xs.foldl addNew l = if xs = [] then l else addNew l a := by
+  induction xs generalizing l with
+  | nil => rfl
+  | cons x t ih =>
+    have hx : x = a := h x List.mem_cons_self
+    subst hx
+    simp only [List.foldl_cons, List.cons_ne_nil, if_false]
+    rw [ih _ (fun y hy => h y (List.mem_cons_of_mem _ hy))]
+    split
+    · rfl
+    · have := getLast?_addNew l x
+      unfold addNew at this ⊢
+      split
+      · rename_i hl; simp [hl]
+      · rename_i hl
+        simp [hl] at this ⊢
+
+/-- **Each path at most once.** With distinct program paths, the list of a label name in the index is
+duplicate-free: the occurrences come grouped by program, and a group adds its path once. -/
+theorem nodup_foldl_addNew_labelOcc (lab : List (Name × List Label)) (k : Name) (acc : List Name)
+    (hn : (keys lab).Nodup) (hacc : acc.Nodup) (hdis : ∀ a ∈ acc, a ∉ keys lab) :
+    ((occOf (labelOcc lab) k).foldl addNew acc).Nodup := by
+  induction lab generalizing acc with
+  | nil => simpa [labelOcc, occOf] using hacc
+  | cons e t ih =>
+    have hocc : occOf (labelOcc (e :: t)) k =
+        occOf (e.2.map fun l => (l.name, e.1)) k ++ occOf (labelOcc t) k := by
+      simp only [labelOcc, List.flatMap_cons]
+      exact occOf_append _ _ k
+    rw [hocc, List.foldl_append, foldl_addNew_const _ _ e.1 (occOf_block e k)]
+    simp only [keys, List.map_cons, List.nodup_cons] at hn
+    have he : e.1 ∉ acc := fun h => hdis e.1 h (by simp [keys])
+    split
+    · apply ih _ hn.2 hacc
+      intro a ha hk
+      exact hdis a ha (by simp only [keys, List.map_cons, List.mem_cons]; exact Or.inr hk)
+    · have hadd : addNew acc e.1 = acc ++ [e.1] := by
+        unfold addNew
+        split
+        · rename_i hl; exact absurd (List.mem_of_getLast? hl) he
+        · rfl
+      rw [hadd]
+      apply ih _ hn.2
+      · rw [List.nodup_append]
+        refine ⟨hacc, by simp, ?_⟩
+        intro a ha b hb
+        simp only [List.mem_singleton] at hb
+        rw [hb]; intro e'; exact he (e' ▸ ha)
+      · intro a ha hk
+        rcases List.mem_append.mp ha with h | h
+        · exact hdis a h (by simp only [keys, List.map_cons, List.mem_cons]; exact Or.inr hk)
+        · simp only [List.mem_singleton] at h
+          rw [h] at hk
+          exact hn.1 (by simpa [keys] using hk)
+
+theorem nodup_dedupAdj_labelOcc (lab : List (Name × List Label)) (k : Name) (hn : (keys lab).Nodup) :
+    (dedupAdj (occOf (labelOcc lab) k)).Nodup :=
+  nodup_foldl_addNew_labelOcc lab k [] hn (by simp) (by simp)
 
 end Paroxy.DB
